@@ -723,7 +723,7 @@ func (env *SpecEnv) field(base Val, name string) Val {
 		return Val{t: f.readAddr(&Addr{kind: "F", loc: l, li: li, ref: base.t}), typ: ft}
 	})
 	// values read from the heap satisfy their type invariant (w.r.t. that state's allocation frontier)
-	if !strings.Contains(v.t, "?") {
+	if !hasBound(v.t) {
 		switch ft.Underlying().(type) {
 		case *types.Slice, *types.Pointer, *types.Map, *types.Interface:
 			key := "tinv:" + v.t
@@ -813,7 +813,7 @@ func (env *SpecEnv) call(x *ast.CallExpr) Val {
 	case "forall", "exists":
 		// forall(i, body)  or  forall(k, "go type", body)
 		id := x.Args[0].(*ast.Ident).Name
-		bv := "?" + id
+		bv := boundPrefix + id
 		var bt types.Type = intT
 		if len(x.Args) == 3 {
 			ts, _ := strconv.Unquote(x.Args[1].(*ast.BasicLit).Value)
